@@ -447,14 +447,13 @@ Proof.
       exists (l1' ++ pt :: l2). cbn [f_cs].
       eapply (free_assemble z hs m l1' [pt; m] l2 pt (m + K) (p1 + K) cs2 _ _ pp fp K false q g);
         fold cs0; fold n; eauto; try lia.
-      * intros t. rewrite Hmem2. cbn [In]. tauto.
       * intros t [<-|[<-|[]]]; (split; [lia|auto]).
       * left; auto.
       * right; left; auto.
       * rewrite Ehs, !sum_units_app, !sum_units_cons, Hfull, Hpst. unfold FULL, EMPTY.
         cbn [Z.eqb Pos.eqb sum_units fold_right]. fold K. lia.
       * eapply rep_ext; [apply rep_del; [exact HRep|]|reflexivity|].
-        -- split; [apply Hmem2; auto|auto].
+        -- split; [apply Hmem2; cbn [In]; auto|auto].
         -- intros k t. unfold FreeSeg. fold cs0. split.
            ++ intros ((A & B & C) & D). split; auto. intros [<-|[<-|[]]].
               ** apply D. split; auto. congruence.
@@ -480,10 +479,10 @@ Proof.
       { assert (Hr : in_range n (m + K) = true) by (apply in_range_iff; lia). rewrite Hr.
         rewrite C24 by lia. eqb_lia. rewrite ?Hxst. reflexivity. }
       unfold free_next. cbn [f_cs f_cur f_ix f_reuse]. rewrite Enf2. rewrite !EX2 in *.
-      assert (Hx_in : In (m + K) hs) by (apply Hmem2; right; right; left; auto).
+      assert (Hx_in : In (m + K) hs) by (apply Hmem2; cbn [In]; auto).
       assert (Hlx : exists lx, sp_del (ix_find (z_idx z)) p1 pt X = Some lx).
       { apply (rep_find_some _ (fun k t => FreeSeg cs0 hs k t /\ ~ (k = p1 /\ t = pt)) X (m + K)).
-        - apply rep_del; auto. split; [apply Hmem2; auto|auto].
+        - apply rep_del; auto. split; [apply Hmem2; cbn [In]; auto|auto].
         - split; [split; auto|]. intros [_ E]. lia. }
       destruct Hlx as (lx & Hlx).
       destruct (ix_unlink ixa X (m + K) (p1 + K + X) r2) as [ixb r3] eqn:E3.
@@ -503,7 +502,7 @@ Proof.
       * rewrite Ehs, !sum_units_app, !sum_units_cons, Hfull, Hpst, Hxst. unfold FULL, EMPTY.
         cbn [Z.eqb Pos.eqb sum_units fold_right]. fold K. lia.
       * eapply rep_ext; [apply rep_del; [apply rep_del; [exact HRep|]|]|reflexivity|].
-        -- split; [apply Hmem2; auto|auto].
+        -- split; [apply Hmem2; cbn [In]; auto|auto].
         -- split; [split; auto|]. intros [_ E]. lia.
         -- intros k t. unfold FreeSeg. fold cs0. split.
            ++ intros (((A & B & C) & D) & D'). split; auto. intros [<-|[<-|[<-|[]]]].
